@@ -115,7 +115,8 @@ inline std::uint64_t hash_seq(Seq const& s)
 // Comp: strict weak orders. mode 0 less, 1 greater, 2 "mod 2" (0 and 2 equivalent, before 1)
 struct Comp {
     int mode = 0;
-    bool operator()(El const& a, El const& b) const
+    template <typename T>
+    bool operator()(T const& a, T const& b) const
     {
         vi::touch_read(&a, sizeof a, "pred-outside-range");
         vi::touch_read(&b, sizeof b, "pred-outside-range");
@@ -139,7 +140,8 @@ inline char const* comp_name(int mode)
 // Eq: equivalence predicates. mode 0 key equality, 1 equality mod 2
 struct Eq {
     int mode = 0;
-    bool operator()(El const& a, El const& b) const
+    template <typename T>
+    bool operator()(T const& a, T const& b) const
     {
         vi::touch_read(&a, sizeof a, "pred-outside-range");
         vi::touch_read(&b, sizeof b, "pred-outside-range");
@@ -159,7 +161,8 @@ inline char const* eq_name(int mode)
 struct Pred {
     int mode = 0;
     int arg  = 0;
-    bool operator()(El const& a) const
+    template <typename T>
+    bool operator()(T const& a) const
     {
         vi::touch_read(&a, sizeof a, "pred-outside-range");
         vi::mon().pred_calls++;
